@@ -148,12 +148,14 @@ Definition rdnss_Apply (auto : bool) (lifetime : dur) (servers : list N) (addrs 
 Inductive raw_server :=
 | RSbad                       (* ParseAddr failed *)
 | RSnot6                      (* !Is6() || Is4In6() *)
-| RS6 (a : N).                (* an IPv6 address *)
+| RSzone (a : N)              (* an IPv6 address with a zone (fe80::1%eth0): refused since fix rdnss-zone *)
+| RS6 (a : N).                (* an IPv6 address without zone *)
 
 Definition perr_parse : N := 1.
 Definition perr_not6 : N := 2.
 Definition perr_wild_twice : N := 3.
 Definition perr_dup : N := 4.
+Definition perr_zone : N := 5.
 
 (* the loop; [set] is the map of servers (most recent first) *)
 Fixpoint parse_servers (auto : bool) (set : list N) (l : list raw_server) : result (bool * list N) :=
@@ -161,6 +163,7 @@ Fixpoint parse_servers (auto : bool) (set : list N) (l : list raw_server) : resu
   | [] => Ok (auto, set)
   | RSbad :: _ => Err perr_parse
   | RSnot6 :: _ => Err perr_not6
+  | RSzone _ :: _ => Err perr_zone
   | RS6 a :: tl =>
       if is_unspecified a then (if auto then Err perr_wild_twice else parse_servers true set tl)
       else if memN a set then Err perr_dup
